@@ -115,11 +115,13 @@ def run(tier, v):
     # design level: the five TLC runs go on in the background while the harness is built and the drivers run
     import concurrent.futures
     vlib.spec_copy()
-    ex = concurrent.futures.ThreadPoolExecutor(max_workers=5)
+    ex = concurrent.futures.ThreadPoolExecutor(max_workers=8)
     design = {
         "Responses_exh": ex.submit(vlib.tlc, "Responses", "Responses_exh.cfg", workers=6, heap="4g", deadlock=False, timeout=1200),
         "Availability_exh": ex.submit(vlib.tlc, "Availability", "Availability_exh.cfg", workers=2, heap="2g", deadlock=False, timeout=900),
         "Responses_neg_panic": ex.submit(vlib.tlc, "Responses", "Responses_neg_panic.cfg", workers=1, heap="1g", deadlock=False, timeout=600),
+        "Responses_neg_announced": ex.submit(vlib.tlc, "Responses", "Responses_neg_announced.cfg", workers=1, heap="1g", deadlock=False, timeout=600),
+        "Responses_neg_wkt": ex.submit(vlib.tlc, "Responses", "Responses_neg_wkt.cfg", workers=1, heap="1g", deadlock=False, timeout=600),
         "Availability_neg_bind": ex.submit(vlib.tlc, "Availability", "Availability_neg_bind.cfg", workers=1, heap="1g", deadlock=False, timeout=600),
         "Scenario_neg_panic": ex.submit(vlib.tlc, "ScenarioMC", "Scenario_neg_panic.cfg", workers=1, heap="1g", deadlock=False, timeout=600),
     }
@@ -139,7 +141,7 @@ def run(tier, v):
         vlib.tlc_must_pass(r, name)
         states += r.distinct
         trans += r.generated
-    for name in ("Responses_neg_panic", "Availability_neg_bind", "Scenario_neg_panic"):
+    for name in ("Responses_neg_panic", "Responses_neg_announced", "Responses_neg_wkt", "Availability_neg_bind", "Scenario_neg_panic"):
         vlib.tlc_must_fail(design[name].result(), name)
     ex.shutdown()
     rows, tr = validate(v, out)
@@ -174,7 +176,7 @@ def run(tier, v):
         "ammo_fired": sum(r_["fired"] for r_ in rows),
         "samples_observed": sum(len(r_["samples"]) for r_ in rows),
         "fatal_runs_documented": sum(1 for r_ in rows if r_["fatal"]),
-        "negative_controls": ["Responses_neg_panic", "Scenario_neg_panic", "Availability_neg_bind"],
+        "negative_controls": ["Responses_neg_panic", "Responses_neg_announced", "Responses_neg_wkt", "Scenario_neg_panic", "Availability_neg_bind"],
         "trace_spec_states": tr.distinct,
     }
     return "model_checking", cov, [
@@ -182,9 +184,10 @@ def run(tier, v):
         "bad-chunk bodies, malformed status line / header / 12 MB header, close before / during, refused, timeout, non-JSON, "
         "non-HTML, short / absent header; unsolicited 100 Continue, more 1xx than the client accepts, 101 Switching Protocols, chunk sizes "
         "that overflow / are negative / lack CRLF / end early, gzip Content-Encoding on garbage (with and without a decompressing client), "
-        "a 1.2 MB header block in 20 000 lines, one-byte writes; $.list empty / one element / string / null / object flowing into a later "
+        "a 1.2 MB header block in 20 000 lines, one-byte writes; announced Content-Length 2^62 / 2^63-1 (a few bytes, close) and 2^63 / 10^20; $.list empty / one element / string / null / object flowing into a later "
         "step's preprocessor under every index form; connect tunnel refused / 407 / garbage / extra bytes; gRPC: codes 0..16 and 17, 42, "
-        "2^31-1, 1 MB / 6 MB replies, deadline, killed connection (before / after the headers), empty and undecodable reply messages",
+        "2^31-1, 1 MB / 6 MB replies, deadline, killed connection (before / after the headers), empty and undecodable reply messages, OK replies whose type is a protobuf "
+        "well-known type (Empty, Timestamp, Duration, wrappers, Struct, ListValue, Any)",
         "each ammo names its letter; letters with effects beyond their own request (timeout, refused, killed gRPC connection, "
         "slow gRPC) only in single-letter runs; gRPC status coding only checked as 200 / >= 400 (C10, C20 own the table)",
         "http2 guns: well-formed h2 responses, handshake-level letters (alert / close / reset on every other handshake, "
@@ -216,5 +219,7 @@ MANIFEST = dict(
          "provoked on the real engine, so a panic or a lost/extra sample in any path shows as a rejected run.",
     note="2 instances x 30 ammo per run; byte-level fuzz of responses is not attempted (letters are representatives); "
          "gRPC status table not re-derived; the instance loop is explored over one representative letter per outcome class; "
-         "a peer that stalls in the middle of a body is outside the alphabet (no body timeout option: the instance would block, not crash)",
+         "a peer that stalls in the middle of a body is outside the alphabet (no body timeout option: the instance would block, not crash); "
+         "announced body lengths are either true, slightly short or absurd (>= 2^62) - lengths that a careless client would really try to "
+         "allocate (2^31 .. 2^40) are not provoked",
 )
